@@ -141,6 +141,20 @@ impl Stats {
             }
         }
     }
+    /// Record a violation unless it matches an open known finding (then it is counted and the
+    /// search continues).  Returns true if it was recorded as a new violation.
+    pub fn push_violation(&mut self, v: Violation) -> bool {
+        if let Some(id) = known_open_id(&v.sig) {
+            *self.known_hits.entry(id.to_string()).or_insert(0) += 1;
+            false
+        } else {
+            self.violations.push(v);
+            true
+        }
+    }
+    pub fn known_hit(&mut self, id: &str) {
+        *self.known_hits.entry(id.to_string()).or_insert(0) += 1;
+    }
     pub fn distinct_nontrivial(&self) -> u64 {
         self.nontrivial_enum + self.nontrivial_hashes.len() as u64
     }
@@ -245,7 +259,16 @@ where
         };
         let v = tree.current();
         st.evals += 1;
-        let viols = check(&v, st);
+        let viols: Vec<Violation> = check(&v, st)
+            .into_iter()
+            .filter(|x| match known_open_id(&x.sig) {
+                Some(id) => {
+                    st.known_hit(id);
+                    false
+                }
+                None => true,
+            })
+            .collect();
         if viols.is_empty() {
             continue;
         }
@@ -260,7 +283,7 @@ where
             loop {
                 steps += 1;
                 let cur = tree.current();
-                let vv = check(&cur, &mut scratch);
+                let vv: Vec<Violation> = check(&cur, &mut scratch).into_iter().filter(|x| known_open_id(&x.sig).is_none()).collect();
                 if !vv.is_empty() {
                     best = vv;
                     continue 'outer;
@@ -342,6 +365,19 @@ pub struct KnownFinding {
     pub what: String,
 }
 
+static KNOWN_OPEN: std::sync::OnceLock<Vec<KnownFinding>> = std::sync::OnceLock::new();
+
+/// Load the open known findings of the property being checked (call once at start-up).
+pub fn init_known(prop: &str) {
+    let all = load_known_findings(&verif_root());
+    let _ = KNOWN_OPEN.set(all.into_iter().filter(|k| k.status == "open" && k.property == prop && !k.signature.is_empty()).collect());
+}
+
+/// If `sig` is the signature of an open known finding of this property, its id.
+pub fn known_open_id(sig: &str) -> Option<&'static str> {
+    KNOWN_OPEN.get().and_then(|v| v.iter().find(|k| k.signature == sig).map(|k| k.id.as_str()))
+}
+
 pub fn load_known_findings(verif_root: &str) -> Vec<KnownFinding> {
     let p = format!("{}/KNOWN_FINDINGS.json", verif_root);
     let text = match std::fs::read_to_string(&p) {
@@ -396,11 +432,6 @@ pub fn finish(ctx: &Ctx, mut st: Stats, rule: &str, assumptions: &[&str], wall_s
                 *st.known_hits.entry(k.id.clone()).or_insert(0) += 1;
             }
             None => new_violations.push(v),
-        }
-    }
-    for (id, n) in &st.known_hits {
-        if let Some(k) = known.iter().find(|k| &k.id == id && k.property == ctx.prop) {
-            println!("KNOWN-FINDING: property={} {} [{}; {} matching case(s) excluded and counted this run]", ctx.prop, k.what, k.id, n);
         }
     }
     let mut exit = 0;
